@@ -1449,7 +1449,26 @@ class Exec:
         return self.lib.try_stmt(self, st, n)
 
     def st_Delete(self, n, st):
-        raise Unsupported("del")
+        # del frame["column"]
+        outs = [st]
+        for tgt in n.targets:
+            if not isinstance(tgt, ast.Subscript):
+                raise Unsupported("del of a non-subscript")
+            nxt = []
+            for s in outs:
+                for s2, (ov, kv) in [(a, b) for a, b in self.evs([tgt.value, tgt.slice], s)]:
+                    t = s2.get(ov)
+                    key = s2.get(kv)
+                    if isinstance(t, Tab) and isinstance(key, str) and isinstance(ov, Ref):
+                        if key not in t.cols:
+                            raise Unsupported("del of a missing column")
+                        s2.put(ov, Tab(t.n, {c: f for c, f in t.cols.items() if c != key}, t.idx,
+                                       {c: e for c, e in t.elts.items() if c != key}))
+                        nxt.append(s2)
+                    else:
+                        raise Unsupported("del")
+            outs = nxt
+        return outs
 
     def st_Global(self, n, st):
         raise Unsupported("global")
